@@ -192,3 +192,35 @@ func lockScenario(nProcs int, withCrash bool) {
 func VerifC10_K_two_processes() { lockScenario(2, flag("one_process_may_crash")) }
 
 func VerifC10_K_three_processes() { lockScenario(3, false) }
+
+// K4: whatever the lock file contains, a single contender takes the lock iff the content does not
+// name a live process: the content is read as a decimal integer after trimming white space (what
+// Lock itself writes, and what strconv.Atoi accepts), everything else is stale.
+func VerifC10_K_lock_file_content() {
+	alive = [1024]bool{}
+	foreign = [1024]bool{}
+	alive[1], alive[11], alive[100] = true, true, true
+	if err := os.MkdirAll("/grogroot/ws", 0755); err != nil {
+		panic(err)
+	}
+	n := 3
+	if sym.Tier() == "thorough" {
+		n = 4
+	}
+	content := sym.StringNAlpha("lock_file_content", n, "+-01 \n")
+	_ = os.WriteFile(lockPath, []byte(content), 0644)
+	pid, perr := strconv.Atoi(strings.TrimSpace(content))
+	holderAlive := perr == nil && pid > 0 && pid < len(alive) && alive[pid]
+	sym.SetPid(100)
+	ctx, cancel := context.WithTimeout(context.Background(), 170*time.Millisecond)
+	defer cancel()
+	wl := &WorkspaceLocker{lockFilePath: lockPath}
+	err := wl.Lock(ctx)
+	if holderAlive {
+		sym.Assert(err != nil, "C10.K4.lock-naming-a-live-process-is-respected")
+		sym.Reach("C10.K4.respected")
+	} else {
+		sym.Assert(err == nil, "C10.K4.stale-content-is-recovered")
+		sym.Reach("C10.K4.recovered")
+	}
+}
